@@ -24,6 +24,7 @@ type Unit struct {
 	Trusted []string
 	Splits  [][]Term // extra hypotheses per split instance (each instance: list of equalities)
 	SplitNm []string
+	HSplits []HSplit // the hypothesis splits one by one (Splits/SplitNm is the product of those without `for`)
 	Obligs  []*Oblig
 	Suffix  string
 	NObl    int
@@ -80,6 +81,9 @@ func (p *Program) unitTasks(ct *Contract) []Task {
 		if pnames[sp.Var] || isLocationExpr(sp.Var) {
 			psplits = append(psplits, sp)
 			forLabels = append(forLabels, sp.For...)
+		} else if len(sp.For) == 0 {
+			// an expression: one instance per value, the value substituted for the term
+			psplits = append(psplits, sp)
 		}
 	}
 	if len(psplits) == 0 {
@@ -99,7 +103,7 @@ func (p *Program) unitTasks(ct *Contract) []Task {
 					m[a] = b
 				}
 				m[sp.Var] = int64(k)
-				next = append(next, inst{m, fmt.Sprintf("%s[%s=%d]", in.suf, sp.Var, k)})
+				next = append(next, inst{m, fmt.Sprintf("%s[%s=%d]", in.suf, splitLabel(sp.Var), k)})
 			}
 		}
 		insts = next
@@ -161,6 +165,42 @@ func (p *Program) applyStateSubst(e *Exec, env0 *SpecEnv, entry map[string]Term)
 			e.fail("split location %s is not an integer cell", k)
 		}
 		e.c.storeAt(entry, av.Addr, scalar(t, bvLitI(srt.W, e.subst[k])))
+	}
+}
+
+// applyTermSubst: case split on an expression by substituting the value for its term: the
+// equation is assumed, and from here on the term is built as the literal, so that branches
+// on it fold while the unit is executed
+func (p *Program) applyTermSubst(e *Exec, env0 *SpecEnv, pnames map[string]bool) {
+	var keys []string
+	for k := range e.subst {
+		if !pnames[k] && !isLocationExpr(k) {
+			keys = append(keys, k)
+		}
+	}
+	sort.Strings(keys)
+	for _, k := range keys {
+		x, err := parseSpecExpr(k)
+		if err != nil {
+			e.fail("split expression %q: %v", k, err)
+		}
+		e.c.quiet++
+		v := env0.eval(x)
+		e.c.quiet--
+		if v.K != nil || len(v.L) != 1 || v.T().Sort.K != SBV {
+			e.fail("split expression %q is not an integer term", k)
+		}
+		t := v.T()
+		lit := bvLitI(t.Sort.W, e.subst[k])
+		if _, isLit := litValue(t); isLit {
+			e.c.assume(e.c.eq(t, lit), "case split "+k)
+			continue
+		}
+		e.c.assume(e.c.eq(t, lit), "case split "+k)
+		if e.c.substTerm == nil {
+			e.c.substTerm = map[string]Term{}
+		}
+		e.c.substTerm[t.S] = lit
 	}
 }
 
@@ -264,6 +304,13 @@ func (p *Program) verifyUnit(ct *Contract, subst map[string]int64, suffix string
 		reqs = append(reqs, t)
 		c.assume(t, "requires")
 	}
+	{
+		pn := map[string]bool{}
+		for n := range params {
+			pn[n] = true
+		}
+		p.applyTermSubst(e, env0, pn)
+	}
 	// vacuity: the precondition must be satisfiable
 	c.oblige(&Oblig{Name: u.Name + "#vacuity:requires-satisfiable", Kind: "vacuity", Fn: u.Name, Goal: tFalse, Props: ct.Props, Expect: "sat"})
 	if e.exhaustOnly {
@@ -273,6 +320,9 @@ func (p *Program) verifyUnit(ct *Contract, subst map[string]int64, suffix string
 	// lemma instances requested by `use` clauses (over the entry state)
 	for _, us := range ct.Uses {
 		p.useLemma(e, ct, us, env0, tTrue)
+	}
+	for _, uf := range ct.Unfolds {
+		p.unfoldSpec(e, uf, env0, tTrue)
 	}
 	// splits
 	p.makeSplits(e, ct, env0, u)
@@ -330,7 +380,7 @@ func (p *Program) splitExhaustive(e *Exec, ct *Contract, env *SpecEnv) {
 		pnames[n] = true
 	}
 	for _, sp := range ct.Splits {
-		if !pnames[sp.Var] && !isLocationExpr(sp.Var) {
+		if !pnames[sp.Var] && !isLocationExpr(sp.Var) && len(sp.For) > 0 {
 			continue
 		}
 		x, err := parseSpecExpr(sp.Var)
@@ -346,6 +396,20 @@ func (p *Program) splitExhaustive(e *Exec, ct *Contract, env *SpecEnv) {
 	}
 }
 
+// splitLabel: a split expression as it appears in obligation names (no brackets, '=' or blanks, so
+// that the suffix can be recognised and stripped)
+func splitLabel(v string) string {
+	return strings.NewReplacer("[", "(", "]", ")", "==", "~", "=", "~", " ", "").Replace(v)
+}
+
+// HSplit: one case split by hypothesis; For restricts it to the clauses with these labels
+type HSplit struct {
+	Var   string
+	For   []string
+	Eqs   []Term
+	Names []string
+}
+
 var splitRe = regexp.MustCompile(`^(.+?)\s+in\s+(-?\d+)\.\.(-?\d+)$`)
 
 func (p *Program) makeSplits(e *Exec, ct *Contract, env *SpecEnv, u *Unit) {
@@ -355,7 +419,7 @@ func (p *Program) makeSplits(e *Exec, ct *Contract, env *SpecEnv, u *Unit) {
 	for n := range env.params {
 		pnames[n] = true
 	}
-	hyp := func(sp Split) bool { return !pnames[sp.Var] && !isLocationExpr(sp.Var) }
+	hyp := func(sp Split) bool { return !pnames[sp.Var] && !isLocationExpr(sp.Var) && len(sp.For) > 0 }
 	rest := 0
 	for _, sp := range ct.Splits {
 		if hyp(sp) {
@@ -383,13 +447,22 @@ func (p *Program) makeSplits(e *Exec, ct *Contract, env *SpecEnv, u *Unit) {
 			}
 			e.c.oblige(&Oblig{Name: u.Name + "#split-exhaustive:" + sp.Var, Label: sp.Var, Kind: "split-exhaustive", Fn: u.Name, Goal: e.c.or(alts...), Props: ct.Props})
 		}
+		hs := HSplit{Var: sp.Var, For: sp.For}
+		for _, k := range sp.Vals {
+			hs.Eqs = append(hs.Eqs, e.c.eq(v.T(), bvLitI(v.T().Sort.W, int64(k))))
+			hs.Names = append(hs.Names, fmt.Sprintf("[%s=%d]", splitLabel(sp.Var), k))
+		}
+		u.HSplits = append(u.HSplits, hs)
+		if len(sp.For) > 0 {
+			continue // applied per obligation (expandJobs)
+		}
 		var ns [][]Term
 		var nn []string
 		for i, base := range u.Splits {
 			for _, k := range sp.Vals {
 				eq := e.c.eq(v.T(), bvLitI(v.T().Sort.W, int64(k)))
 				ns = append(ns, append(append([]Term{}, base...), eq))
-				nn = append(nn, fmt.Sprintf("%s[%s=%d]", u.SplitNm[i], sp.Var, k))
+				nn = append(nn, fmt.Sprintf("%s[%s=%d]", u.SplitNm[i], splitLabel(sp.Var), k))
 			}
 		}
 		u.Splits, u.SplitNm = ns, nn
@@ -495,6 +568,13 @@ func (p *Program) verifyLemma(e *Exec, ct *Contract, u *Unit) {
 	for _, r := range ct.Requires {
 		c.assume(e.evalSpecBool(r, env0, nil, nil), "requires")
 	}
+	{
+		pn := map[string]bool{}
+		for n := range params {
+			pn[n] = true
+		}
+		p.applyTermSubst(e, env0, pn)
+	}
 	c.oblige(&Oblig{Name: u.Name + "#vacuity:requires-satisfiable", Kind: "vacuity", Fn: u.Name, Goal: tFalse, Props: ct.Props, Expect: "sat"})
 	if e.exhaustOnly {
 		p.splitExhaustive(e, ct, env0)
@@ -502,6 +582,12 @@ func (p *Program) verifyLemma(e *Exec, ct *Contract, u *Unit) {
 	}
 	for _, us := range ct.Uses {
 		p.useLemma(e, ct, us, env0, tTrue)
+	}
+	for _, uf := range ct.Unfolds {
+		p.unfoldSpec(e, uf, env0, tTrue)
+	}
+	for _, in := range ct.Inducts {
+		p.inductLemma(e, ct, in, env0)
 	}
 	p.makeSplits(e, ct, env0, u)
 	p.evalCarveOuts(e, env0, u)
@@ -636,6 +722,15 @@ func (p *Program) evalCarveOuts(e *Exec, env0 *SpecEnv, u *Unit) {
 // it was proved by case split) become obligations, its ensures assumptions.
 func (p *Program) useLemma(e *Exec, ct *Contract, src string, env *SpecEnv, reach Term) {
 	c := e.c
+	if i := strings.Index(src, " when "); i >= 0 {
+		cx, err := parseSpecExpr(src[i+6:])
+		if err != nil {
+			e.fail("use %q: %v", src, err)
+		}
+		cond := e.evalSpecBool(SpecExpr{Src: src[i+6:], E: cx, Line: "use"}, env, nil, nil)
+		reach = c.and(reach, cond)
+		src = strings.TrimSpace(src[:i])
+	}
 	x, err := parser.ParseExpr(src)
 	if err != nil {
 		e.fail("use %q: %v", src, err)
@@ -750,4 +845,130 @@ func (e *Exec) assignTargets(src string, env *SpecEnv) []assignTarget {
 		out = append(out, assignTarget{key: ad.Key + fp + l.Path, heap: ad.Kind == RHeap, ref: ad.Ref, addr: ad, typ: t})
 	}
 	return out
+}
+
+
+// unfoldSpec instantiates the defining equation of a recursive spec function at the given
+// arguments: f(args) == body[args], the recursive applications inside the body staying opaque.
+// Every recursive application must decrease the (non-negative) measure: obligation.
+func (p *Program) unfoldSpec(e *Exec, src string, env *SpecEnv, reach Term) {
+	c := e.c
+	if i := strings.Index(src, " when "); i >= 0 {
+		cx, err := parseSpecExpr(src[i+6:])
+		if err != nil {
+			e.fail("unfold %q: %v", src, err)
+		}
+		cond := e.evalSpecBool(SpecExpr{Src: src[i+6:], E: cx, Line: "unfold"}, env, nil, nil)
+		reach = c.and(reach, cond)
+		src = strings.TrimSpace(src[:i])
+	}
+	x, err := parseSpecExpr(src)
+	if err != nil {
+		e.fail("unfold %q: %v", src, err)
+	}
+	call, ok := x.(*ast.CallExpr)
+	if !ok {
+		e.fail("unfold %q: not an application", src)
+	}
+	id, ok := call.Fun.(*ast.Ident)
+	if !ok {
+		e.fail("unfold %q: not a spec function", src)
+	}
+	sf := p.cs.Specs[id.Name]
+	if sf == nil || !sf.Recursive {
+		e.fail("unfold %q: %s is not a recursive spec function", src, id.Name)
+	}
+	if len(call.Args) != len(sf.Params) {
+		e.fail("unfold %q: wrong number of arguments", src)
+	}
+	e.c.quiet++
+	app := env.applySpec(sf, call.Args)
+	e.c.quiet--
+	sub := *env
+	sub.pkg = p.pkgByName(sf.Pkg)
+	sub.vars = map[string]Val{}
+	sub.names, sub.params, sub.bound = nil, nil, nil
+	sub.depth = env.depth + 1
+	for i, prm := range sf.Params {
+		e.c.quiet++
+		v := env.eval(call.Args[i])
+		e.c.quiet--
+		if prm.Typ != "any" {
+			pt := sub.lookupType(prm.Typ)
+			v = env.typed(v, pt)
+			v.Typ = pt
+		}
+		sub.vars[prm.Name] = v
+	}
+	rec := &recTrack{sf: sf}
+	sub.rec = rec
+	sub.guard = tTrue
+	body := e.evalSpec(sf.Body, &sub)
+	rt := sub.lookupType(sf.Result)
+	body = env.typed(body, rt)
+	c.assume(c.implies(reach, c.eq(app.T(), body.T())), "unfolding of "+sf.Name)
+	// termination
+	sub.rec = nil
+	m0 := e.evalSpecInt(sf.Measure, &sub, nil, nil)
+	for _, rc := range rec.calls {
+		s2 := sub
+		s2.vars = map[string]Val{}
+		for i, prm := range sf.Params {
+			s2.vars[prm.Name] = rc.args[i]
+		}
+		m1 := e.evalSpecInt(sf.Measure, &s2, nil, nil)
+		g := c.and(c.app(sortBool, "bvsge", m0, bvLitI(64, 0)), c.app(sortBool, "bvslt", m1, m0))
+		e.oblige("spec-termination", sf.Name, c.and(reach, rc.guard), g, token.NoPos)
+	}
+	e.trusted["recursive spec function "+sf.Name+": defining equation instantiated by `unfold` (termination measure checked at every instance)"] = true
+}
+
+// inductLemma: the induction hypothesis of a lemma proved by well-founded induction on its
+// measure: (requires(args') && 0 <= measure(args') < measure(args)) ==> ensures(args')
+func (p *Program) inductLemma(e *Exec, ct *Contract, src string, env *SpecEnv) {
+	c := e.c
+	if !ct.IsLemma || ct.Measure == nil || len(ct.Body) > 0 {
+		e.fail("induct: only in a lemma without statements that has a `measure` clause")
+	}
+	x, err := parser.ParseExpr(src)
+	if err != nil {
+		e.fail("induct %q: %v", src, err)
+	}
+	call, ok := x.(*ast.CallExpr)
+	if !ok || exprString(call.Fun) != strings.TrimPrefix(ct.Key, "lemma ") {
+		e.fail("induct %q: must be an application of the lemma itself", src)
+	}
+	if len(call.Args) != len(ct.Params) {
+		e.fail("induct %q: wrong number of arguments", src)
+	}
+	tp := p.pkgByName(ct.Pkg)
+	sub := &SpecEnv{e: e, pkg: tp, vars: map[string]Val{}, cells: env.cells, old: env.old}
+	for i, prm := range ct.Params {
+		t := sub.lookupType(prm.Typ)
+		v := env.typed(e.evalSpec(SpecExpr{Src: src, E: call.Args[i], Line: "induct"}, env), t)
+		v.Typ = t
+		sub.vars[prm.Name] = v
+	}
+	m0 := e.evalSpecInt(*ct.Measure, env, nil, nil)
+	m1 := e.evalSpecInt(*ct.Measure, sub, nil, nil)
+	// the measure is non-negative wherever the lemma applies
+	e.oblige("measure", "nonneg", tTrue, c.app(sortBool, "bvsge", m0, bvLitI(64, 0)), token.NoPos)
+	hyp := []Term{c.app(sortBool, "bvsge", m1, bvLitI(64, 0)), c.app(sortBool, "bvslt", m1, m0)}
+	for _, r := range ct.Requires {
+		hyp = append(hyp, e.evalSpecBool(r, sub, nil, nil))
+	}
+	for _, sp := range ct.Splits {
+		if v, ok := sub.vars[sp.Var]; ok {
+			var alts []Term
+			for _, k := range sp.Vals {
+				alts = append(alts, c.eq(v.T(), bvLitI(v.T().Sort.W, int64(k))))
+			}
+			hyp = append(hyp, c.or(alts...))
+		}
+	}
+	var concl []Term
+	for _, en := range ct.Ensures {
+		concl = append(concl, e.evalSpecBool(en, sub, nil, nil))
+	}
+	c.assume(c.implies(c.and(hyp...), c.and(concl...)), "induction hypothesis")
 }
